@@ -8,6 +8,7 @@ import z3
 from .values import *  # noqa
 from . import builtins_model as bm
 from . import engine as E
+from .containers import MapOfDefault
 
 CLAUSES = {
     "requires", "ensures", "raises", "modifies", "modifies_all", "modifies_list", "modifies_map", "invariant",
@@ -109,6 +110,8 @@ class Spec:
         self.files = []
         self.clock = None
         self.ground = {}
+        self.abstract_props = []
+        self.dispatch = {}
 
     # ---- loading
     def load_dir(self, d, ground=None):
@@ -204,6 +207,13 @@ class Spec:
                     for k in st.value.keywords:
                         c.local_sorts[k.arg] = eval(compile(ast.Expression(k.value), path, "eval"), ns)
 
+        def abstract_property(cls, name, sort):
+            spec.schemas.setdefault(cls, {})[name] = sort
+            spec.abstract_props.append("%s.%s" % (cls, name))
+
+        def dispatch(static_cls, dynamic_cls):
+            spec.dispatch[static_cls] = dynamic_cls
+
         def grid(lo, step, n):
             return PyVal("grid", lo=frac(lo), step=frac(step), n=n)
 
@@ -220,7 +230,7 @@ class Spec:
             REAL=REAL, INT=INT, BOOL=BOOL, ATOM=ATOM, CHARS=CHARS, NONE=NONE, Ref=Ref, Opt=Opt, Tup=Tup, ListOf=ListOf, MapOf=MapOf,
             schema=schema, struct=struct, record=record, module_var=module_var, const=const, inline=inline, lock=lock,
             abstract_bool=abstract_bool, class_tag=class_tag, contract=contract, virtual=virtual, external=external, lemma=lemma,
-            grid=grid, ground_numbers=ground_numbers, charset=charset, clock=clock, Fraction=Fraction_,
+            abstract_property=abstract_property, dispatch=dispatch, MapOfDefault=MapOfDefault, grid=grid, ground_numbers=ground_numbers, charset=charset, clock=clock, Fraction=Fraction_,
         )
         # clause names must exist so that decorated bodies compile (they are never run)
         for k in CLAUSES:
